@@ -206,9 +206,10 @@ func vErrPayload(i int) map[string]interface{} {
 }
 
 func VerifServiceErrors() {
-	vK = 1
-	vMinLen = 1
-	f := vNewHTTPFed(vReadmeWorld(1), 3000, nil, vSA, vSB)
+	vK = 2
+	vMinLen = 2 // two humans: two node lookups, which a small batch size splits into several calls
+	maxBatch := []int{3000, 1}[verifChoice("maxbatch", 2)]
+	f := vNewHTTPFed(vReadmeWorld(2), maxBatch, nil, vSA, vSB)
 	n := 1 + verifChoice("nerrs", 2)
 	var errsDown []map[string]interface{}
 	for i := 0; i < n; i++ {
@@ -220,7 +221,7 @@ func VerifServiceErrors() {
 	// which step fails: the root step (svc0) or the child step (svc1)
 	target := verifChoice("failing", 2)
 	vFault = &vHTTPFault{url: []string{"svc0", "svc1"}[target], call: 0, errs: errsDown}
-	_, out := f.vPost(`{ me { name phone } }`, nil, "")
+	_, out := f.vPost(`{ getHumans { name phone } }`, nil, "")
 	got, _ := out["errors"].([]interface{})
 	verifAssert(len(got) >= n, "every downstream error reaches the client")
 	for _, de := range errsDown {
@@ -239,6 +240,9 @@ func VerifServiceErrors() {
 			}
 		}
 		verifAssert(found, "a downstream error is forwarded with its message")
+	}
+	if maxBatch == 1 {
+		verifReach("chunked downstream calls")
 	}
 	if target == 1 {
 		verifReach("child step failed")
